@@ -89,7 +89,7 @@ func arg(t reflect.Type) reflect.Value {
 	switch t.Kind() {
 	case reflect.Int, reflect.Int8, reflect.Int16, reflect.Int32, reflect.Int64:
 		ctr++
-		v.SetInt(int64(1 + ctr%3))
+		v.SetInt(int64(1 + ctr%5))
 	case reflect.String:
 		v.SetString("x")
 	case reflect.Bool:
@@ -131,7 +131,8 @@ func runStruct(typ, ma, mb string) {
 	case "Round", "timeoutCounter":
 		r := round.NewRound(7)
 		r.SetRandomSeed(11, 3)
-		r.AddNotarizedBlock(newBlock())
+		r.AddNotarizedBlock(newBlock()) // Clone dereferences r.Block
+		r.ResetPhase(round.ShareVRF)
 		obj = reflect.ValueOf(r)
 	default:
 		b := newBlock()
@@ -224,7 +225,7 @@ func main() {
 			continue
 		}
 		cmd := exec.Command(os.Args[0], "-one", p)
-		cmd.Env = append(os.Environ(), "GORACE=halt_on_error=1 exitcode=66")
+		cmd.Env = append(os.Environ(), "GORACE=halt_on_error=0 exitcode=0")
 		var out bytes.Buffer
 		cmd.Stderr = &out
 		cmd.Stdout = &out
@@ -234,30 +235,51 @@ func main() {
 		_ = os.RemoveAll(dir)
 		r := res{Pair: p}
 		txt := out.String()
-		if i := strings.Index(txt, "WARNING: DATA RACE"); i >= 0 {
-			r.Race = true
-			rep := txt[i:]
+		seen := map[string]bool{}
+		for _, rep := range strings.Split(txt, "WARNING: DATA RACE")[1:] {
 			if j := strings.Index(rep, "=================="); j > 0 {
 				rep = rep[:j]
 			}
-			seen := map[string]bool{}
+			// innermost repository line and repository function names of the two access stacks
+			var two, fns []string
 			for _, blk := range strings.Split(rep, "\n\n") {
-				// first repository frame of each access block
-				for _, f := range reFrame.FindAllString(blk, -1) {
-					if strings.Contains(f, "0chain.net/") && !strings.Contains(f, "verif") {
-						short := f[strings.LastIndex(f, "/")+1:]
-						if !seen[short] && len(r.Frames) < 4 {
-							seen[short] = true
-							r.Frames = append(r.Frames, short)
+				if len(two) == 2 || strings.HasPrefix(strings.TrimSpace(blk), "Goroutine") {
+					break
+				}
+				first := ""
+				var names []string
+				lines := strings.Split(blk, "\n")
+				for li := 0; li+1 < len(lines); li++ {
+					fn := strings.TrimSpace(lines[li])
+					loc := reFrame.FindString(lines[li+1])
+					if !strings.HasPrefix(fn, "0chain.net/") || loc == "" || !strings.Contains(loc, "0chain.net/") {
+						continue
+					}
+					if first == "" {
+						first = loc[strings.LastIndex(loc, "/")+1:]
+					}
+					fn = strings.TrimSuffix(fn, "()")
+					names = append(names, fn[strings.LastIndex(fn, ".")+1:])
+				}
+				if first != "" {
+					two = append(two, first)
+					fns = append(fns, strings.Join(names, ";"))
+				}
+			}
+			if len(two) == 2 {
+				k := two[0] + "|" + two[1]
+				if !seen[k] {
+					seen[k] = true
+					r.Frames = append(r.Frames, k+"|"+fns[0]+"|"+fns[1])
+					if len(r.Report) < 6000 {
+						if len(rep) > 1500 {
+							rep = rep[:1500]
 						}
-						break
+						r.Report += "WARNING: DATA RACE" + rep + "\n"
 					}
 				}
 			}
-			if len(rep) > 1800 {
-				rep = rep[:1800]
-			}
-			r.Report = rep
+			r.Race = true
 		}
 		b, _ := json.Marshal(r)
 		fmt.Println(string(b))
